@@ -160,9 +160,12 @@ type Sched struct {
 	// Trace enables a human readable step log in Result.TraceLog.
 	Trace bool
 	// MemPoints: source sites whose plain-memory accesses are scheduling points.
-	MemPoints map[string]bool
-	mem       map[uintptr]*memInfo
-	memKeep   []any
+	MemPoints  map[string]bool
+	mem        map[uintptr]*wordInfo
+	memKeep    []any
+	memDbg     string
+	memSites   []string
+	memSiteIdx map[string]uint16
 	// stop conditions
 	exit bool
 }
